@@ -121,6 +121,52 @@ def examine(node_cfg: Dict[str, Any], exp_in: str, exp_out: str, exp_created, ex
     return bad
 
 
+def underscore_jobs() -> List[Dict[str, Any]]:
+    """Processors given as CLASS OBJECTS whose name starts with an underscore (module-private helpers)."""
+    import verif_ext
+    return [{"name": "underscore", "cfg": {"processor": verif_ext._VScratchSource}, "in": "none", "out": "float", "created": []},
+            {"name": "underscore", "cfg": {"processor": verif_ext._VScratchOperation, "parameters": {"factor": 2.0}}, "in": "float", "out": "float", "created": []},
+            {"name": "underscore", "cfg": {"processor": verif_ext._VScratchProbe, "context_key": "us"}, "in": "float", "out": "float", "created": ["us"]}]
+
+
+OO_SCRIPT = r"""
+import json, sys
+sys.path.insert(0, sys.argv[1])
+from vharness import seams; seams.setup()
+from vharness.props import c16
+jobs = [{"name": "extra", "cfg": cfg, "in": i, "out": o, "created": sorted(cr)} for cfg, i, o, cr in c16.EXTRA] + c16.underscore_jobs()
+for p in ("FloatDataSource", "FloatPayloadSource", "FloatDataSink", "FloatPayloadSink", "FloatValueDataSource", "FloatMultiplyOperation"):
+    jobs.append({"name": "plain", "cfg": {"processor": p}, "in": "none" if "Source" in p else "float", "out": "float", "created": []})
+out = []
+for j in jobs:
+    try:
+        bad = c16.examine(j["cfg"], j["in"], j["out"], j["created"])
+    except Exception as exc:
+        bad = [("factory-raises", f"{type(exc).__name__}: {exc} for {j['cfg']}")]
+    out += [(k, m[:300]) for k, m in bad]
+print("OO-RESULT " + json.dumps({"n": len(jobs), "docstrings_stripped": c16.examine.__doc__ is None, "viol": out}, default=str))
+"""
+
+
+def optimised_interpreter_check(run) -> None:
+    """ENVIRONMENT: the same factories in an interpreter started with -OO (docstrings stripped, asserts removed): generated
+    classes satisfy the catalogue there as well."""
+    import json as _json
+    import subprocess
+    import sys
+    from pathlib import Path
+    hdir = str(Path(__file__).resolve().parents[2])
+    p = subprocess.run([sys.executable, "-OO", "-c", OO_SCRIPT, hdir], capture_output=True, text=True, timeout=300)
+    line = next((l for l in p.stdout.splitlines() if l.startswith("OO-RESULT ")), None)
+    if line is None:
+        raise core.MachineryError(f"-OO child produced no result: {p.stderr[-400:]}")
+    res = _json.loads(line[len("OO-RESULT "):])
+    run.evaluations += res["n"]
+    run.extra["optimised_interpreter"] = {"configurations": res["n"], "violations": len(res["viol"])}
+    for k, m in res["viol"]:
+        run.violation(f"environment:python-OO:{k}", f"in an interpreter started with -OO: {m}", {"oo": True})
+
+
 def chunk(jobs: List[Dict[str, Any]]):
     out = {"n": 0, "viol": []}
     rng = random.Random(len(jobs))
@@ -188,6 +234,7 @@ def check(tier: str) -> int:
                      "created": c["created"], "suppressed": c["suppressed"]})
     for cfg, i, o, cr in EXTRA:
         jobs.append({"name": "extra", "cfg": cfg, "in": i, "out": o, "created": sorted(cr)})
+    jobs += underscore_jobs()
     if len(jobs) < 40:
         raise core.MachineryError(f"too few configurations: {len(jobs)}")
     reps = 2 if tier == "quick" else 8
@@ -202,6 +249,7 @@ def check(tier: str) -> int:
             run.evaluations += r["n"]
             for k, m, rep in r["viol"]:
                 run.violation(k, m, rep)
+    optimised_interpreter_check(run)
     run.nontrivial = len(jobs) * 2
     run.traces_validated = run.evaluations
     run.extra["configurations"] = len(jobs)
